@@ -536,7 +536,9 @@ def check_device(ctx, dev, model, unknown, reqs):
                     addr + len(payload) <= r.addr + len(r.data) and
                     r.data[addr - r.addr:addr - r.addr + len(payload)] == payload]
             if cand:
-                ctx.violation('4', 'queued-writes-out-of-order', 'mem %d: chunk at %d belongs to request #%d but request '
+                # (with late acknowledgements a chunk of an earlier, completed write can be retransmitted by the retry timer
+                # after a later queued write has started: same family as the duplicate answers)
+                ctx.violation('4', 'queued-writes-out-of-order' + dup_tag(ctx), 'mem %d: chunk at %d belongs to request #%d but request '
                               '#%d was already being written' % (mid, addr, cand[0], last_idx[(session, mid)]))
             else:
                 ctx.violation('2', 'device-write-not-requested', 'mem %d addr %d data %s was written but never requested'
